@@ -311,7 +311,10 @@ def _native_equivariance(pipelines, n_models, steps=3):
   worst = 0.0
   evals = 0
   diverged = 0
+  from verif.engine.oblig import soft_deadline
   for k in range(n_models):
+    if soft_deadline(0.5, k, 5):
+      break
     xml, meta = modelgen.generate(rng, modelgen.Spec(all_free_roots=True, n_links=(1, 4), collide=False, orthogonal=True, single_kind_stack=True))
     sys = mjcf.loads(xml)
     gq = modelgen.rand_quat(rng)
@@ -386,7 +389,10 @@ def _native_permutation(n):
   from verif.bounded import modelgen
   rng = np.random.RandomState(seed() + 53)
   evals = 0
+  from verif.engine.oblig import soft_deadline
   for k in range(n):
+    if soft_deadline(0.8, k, 3):
+      break
     xa, _ = modelgen.generate(rng, modelgen.Spec(all_free_roots=True, n_links=(1, 3), collide=False, actuators=(0, 0)))
     xb, _ = modelgen.generate(rng, modelgen.Spec(all_free_roots=True, n_links=(1, 3), collide=False, actuators=(0, 0)))
     ra, rb = ElementTree.fromstring(xa), ElementTree.fromstring(xb)
